@@ -181,7 +181,8 @@ def model(before, cmd, after, stdout):
 
 
 def run_cmd(tree, cmd, order):
-    root = tempfile.mkdtemp(prefix='c11_', dir=clidrv.scratch_root())
+    # the directory path itself carries an entry id (50000003, which no file name has): only names may be matched
+    root = tempfile.mkdtemp(prefix='c11_case_50000003_', dir=clidrv.scratch_root())
     try:
         materialize(root, tree)
         argv = []
